@@ -43,11 +43,17 @@ type C14Extra struct {
 	// Tree, when set, is a directory tree the shared Opts point at (GuessPaths
 	// and AnalyzeSources on): scans then also resolve paths and parse sources.
 	Tree *TreeEnv `json:"tree,omitempty"`
+	// GuessUnset: GuessPaths is on but the local roots are left unset in the
+	// shared Opts (a caller that builds Opts by hand).
+	GuessUnset bool `json:"guess_paths_unset_roots,omitempty"`
 }
 
 // optsFor builds the Opts value all tasks of a case share.
 func (ex *C14Extra) optsFor() *stack.Opts {
 	if ex.Tree == nil {
+		if ex.GuessUnset {
+			return &stack.Opts{NameArguments: true, GuessPaths: true}
+		}
 		return &stack.Opts{NameArguments: true}
 	}
 	return &stack.Opts{LocalGOROOT: ex.Tree.GOROOT, LocalGOPATHs: append([]string(nil), ex.Tree.GOPATHs...), NameArguments: true, GuessPaths: true, AnalyzeSources: true}
@@ -349,6 +355,9 @@ func CheckC14(c *Case, cov *Cov) []*Violation {
 				}
 			}
 		}
+		if !reflect.DeepEqual(hopts, ex.optsFor()) {
+			add("opts-mutated", fmt.Sprintf("the Opts value passed to ScanSnapshot was modified by the library: %+v, was %+v", *hopts, *ex.optsFor()))
+		}
 		if cov != nil && merged && len(ex.History) >= 2 {
 			cov.Distinct[core.Hash(c.Extra)]++
 		}
@@ -476,9 +485,13 @@ func RunC14(r *core.Rng, run, seed uint64, tier string, cov *Cov) []*Violation {
 		tree, files = genTreeEnv(r, fmt.Sprintf("%s/verif-tree/c14/%d/%d", base, seed, run))
 		cov.Probe("tree-mode(GuessPaths+AnalyzeSources)")
 	}
+	guessUnset := tree == nil && r.Chance(0.25)
+	if guessUnset {
+		cov.Probe("opts:GuessPaths-with-unset-roots")
+	}
 	// (1) history on one snapshot
 	{
-		ex := &C14Extra{Docs: []*gen.Doc{c14Doc(r, files)}, Shared: []int{0}, Tree: tree}
+		ex := &C14Extra{Docs: []*gen.Doc{c14Doc(r, files)}, Shared: []int{0}, Tree: tree, GuessUnset: guessUnset}
 		ex.History = c14Script(r, 1, 1, r.Range(2, 12))
 		for i := range ex.History {
 			if ex.History[i].Op == "scan" {
@@ -498,7 +511,7 @@ func RunC14(r *core.Rng, run, seed uint64, tier string, cov *Cov) []*Violation {
 	// (2) interleaved tasks
 	{
 		nd := r.Range(1, 3)
-		ex := &C14Extra{Tree: tree}
+		ex := &C14Extra{Tree: tree, GuessUnset: guessUnset}
 		for i := 0; i < nd; i++ {
 			ex.Docs = append(ex.Docs, c14Doc(r, files))
 		}
